@@ -74,6 +74,24 @@ def run(rep, tier, rng):
                 for b_ in range(a, len(vs)):
                     add(f"rel_dot {algs.enc_vec(vs[a])} {algs.enc_vec(vs[b_])} {1 if a == b_ else 0} {REL}",
                         {"op": "orthonormal", "d": d, "i": a, "j": b_}, ("ortho", d, seed, a, b_))
+            # consumed in chunks / iterated twice: still at most d vectors in total, all mutually orthonormal, and retained vectors stay valid
+            import itertools as _it
+            go2 = vg.OrthonormalVectors(d, rng=np.random.RandomState(seed))
+            first_chunk = [np.array(v) for v in _it.islice(go2, max(1, d // 2))]
+            kept = [v for v in first_chunk]
+            rest = []
+            for v in go2:            # a second iter() on the same object
+                rest.append(np.array(v))
+            allv = kept + rest
+            rep.case(("ortho-chunks", d))
+            rep.count("orthonormal-chunked")
+            G = np.array(allv) @ np.array(allv).T if allv else np.zeros((0, 0))
+            if len(allv) != d or not np.allclose(G, np.eye(len(allv)), atol=1e-8):
+                rep.violation(f"OrthonormalVectors({d}) consumed in two chunks yields {len(allv)} vectors that are not an orthonormal set of d",
+                              {"case": {"d": d, "seed": seed},
+                               "python": "import itertools, numpy as np\nfrom nengo_spa.vector_generation import OrthonormalVectors\n"
+                                         f"g = OrthonormalVectors({d}, rng=np.random.RandomState(0)); a = list(itertools.islice(g, {max(1, d // 2)})); b = list(g)\n"
+                                         f"M = np.array(a + b); assert len(M) == {d} and np.allclose(M @ M.T, np.eye({d}))\n"})
         # ---- AxisAlignedVectors ----------------------------------------------------------------
         ax = list(vg.AxisAlignedVectors(d))
         rep.case(("axis", d))
